@@ -189,7 +189,7 @@ def run(ctx, rep):
         rep.ok("R-PROT-MUT", "no DerefMut/AsMut/BorrowMut on ThinArc or the protected payload", cfg=tag)
         # accessors returning &mut into the protected payload must be header_mut / slice_mut shaped (covered above by places)
         # ------------------------------------------------------------ R-THICK
-        thick = [b for b in F.body_list if b["kind"] == "Fn" and any(F.handle_name(F.strip_refs(t)) == "ThinArc" for t in b.get("inputs", [])) and "output" in b and F.ty(b["output"])["k"] == "ptr" and F.mentions_adt(b["output"], PROT)]
+        thick = [b for b in F.body_list if b["kind"] in ("Fn", "AssocFn") and any(F.handle_name(F.strip_refs(t)) == "ThinArc" for t in b.get("inputs", [])) and "output" in b and F.ty(b["output"])["k"] == "ptr" and F.mentions_adt(b["output"], PROT)]
         if len(thick) != 1:
             rep.bad("R-THICK", "re-fattening helper", "expected exactly one helper turning `&ThinArc` into a fat block pointer, found %d" % len(thick), None, tag)
         else:
